@@ -2,6 +2,7 @@ package scen
 
 import (
 	h "lssim/harness"
+	"lssim/world"
 )
 
 func init() {
@@ -51,6 +52,36 @@ func genC02(c *ctx) {
 		n = 8
 	}
 	c.quiescentStates(n, n, chk)
+	// sets collected from an older text: a reference shortened by a few
+	// characters (or the file cut somewhere) after the indexer took its snapshot;
+	// everything a request derives from the current syntax tree stays valid
+	c.eachFile(func(pi, fi int) {
+		if !c.chance(0.6) {
+			return
+		}
+		r := c.rend[pi][fi]
+		c.add(&h.Event{K: "quiesce"})
+		c.add(&h.Event{K: "edit", Path: pi, File: r.Name, Op: "full"})
+		c.add(&h.Event{K: "quiesce"})
+		var refs []*world.Node
+		for _, n := range r.Nodes {
+			if n != nil && n.Kind == "expr" && n.Expr != nil && n.Expr.K == "ref" && n.Range.End-n.Range.Start > 5 {
+				refs = append(refs, n)
+			}
+		}
+		if len(refs) > 0 && c.chance(0.7) {
+			n := refs[c.n(len(refs))]
+			c.add(&h.Event{K: "job", Path: pi, Kind: "targets", Phase: "start"})
+			c.add(&h.Event{K: "job", Path: pi, Kind: "origins", Phase: "start"})
+			c.add(&h.Event{K: "edit", Path: pi, File: r.Name, Op: "splice", Off: n.Range.End - 3, Del: 3})
+			c.add(&h.Event{K: "job", Path: pi, Kind: "targets", Phase: "finish"})
+			c.add(&h.Event{K: "job", Path: pi, Kind: "origins", Phase: "finish"})
+		} else {
+			c.staleWindow(pi, fi)
+		}
+		c.add(&h.Event{K: "check", Path: pi, File: r.Name, Check: &h.Check{Key: c.key(), Stride: 2, Kinds: []string{"hover", "completion", "tokens", "symbols_file", "links", "validate_file"}}})
+		c.add(&h.Event{K: "edit", Path: pi, File: r.Name, Op: "full"})
+	})
 	// cross-path lookups while one of the paths cannot be read
 	if np := len(c.sc.World.Paths); np > 1 {
 		c.add(&h.Event{K: "quiesce"})
